@@ -587,11 +587,45 @@ func analyseTokenClosure(p *Prog, ops *OpTable, fn *ssa.Function, env map[*types
 			shapes = append(shapes, sh)
 		}
 	}
+	// tokens built by a module helper the action returns the result of (`return valueToken(…), nil`)
+	if tokenHelperDepth < 3 {
+		for _, b := range fn.Blocks {
+			ret, ok := b.Instrs[len(b.Instrs)-1].(*ssa.Return)
+			if !ok || len(ret.Results) == 0 {
+				continue
+			}
+			call, ok := ret.Results[0].(*ssa.Call)
+			if !ok {
+				continue
+			}
+			h := call.Call.StaticCallee()
+			if h == nil || h.Blocks == nil || h.Pkg == nil || h.Pkg.Pkg.Path() != p.LibPath {
+				continue
+			}
+			if namedTypeName(h.Signature.Results().At(0).Type()) != "token" {
+				continue
+			}
+			tokenHelperDepth++
+			saved := curFactoryEnv
+			hs, prob := analyseTokenClosure(p, ops, h, nil)
+			curFactoryEnv = saved
+			tokenHelperDepth--
+			for i := range hs {
+				hs[i].Fn = ssaFuncName(fn) + "->" + hs[i].Fn
+			}
+			shapes = append(shapes, hs...)
+			if prob != "" && problem == "" {
+				problem = prob
+			}
+		}
+	}
 	if len(shapes) == 0 {
 		problem = "action closure builds no token"
 	}
 	return shapes, problem
 }
+
+var tokenHelperDepth int
 
 func appendOps(dst []*OpType, src []*OpType) []*OpType {
 	for _, s := range src {
